@@ -257,6 +257,32 @@ fn u8_nested_loop_budget() {
     }
 }
 
+/// The same through an `If`: a budget that runs out in a loop nested inside an `If` body ends the
+/// whole run as "not finished"; nothing after the `If` runs.
+#[kani::proof]
+#[kani::unwind(6)]
+#[kani::stub(crate::ir::Expr::evaluate, crate::ir::Expr::verif_calc_not_reached)]
+fn u8_if_nested_loop_budget() {
+    unsafe {
+        let (mut cxt, cells) = mk_cxt(true);
+        kani::assume(cells[1] != 0 && cells[2] != 0);
+        IN_BYTE = kani::any();
+        let budget: usize = kani::any();
+        kani::assume(budget <= 3);
+        cxt.budget = budget;
+        static INP0: [Instr<u8>; 1] = [Instr::Input { dst: 0 }];
+        let inner = [ManuallyDrop::new(Instr::Loop { cond: 1, block: static_block(&INP0, 0), once: false })];
+        let inner_block = ManuallyDrop::into_inner(as_block(&inner, 0));
+        let outer = [ManuallyDrop::new(Instr::If { cond: 0, block: inner_block }), ManuallyDrop::new(Instr::Output { src: 0 })];
+        let block = as_block(&outer, 0);
+        let r = execute_block::<u8, true>(&mut cxt, &block);
+        assert!(r == Some(false));
+        assert!(OUT_CALLS == 0);
+        assert!(IN_CALLS == budget + 1);
+        assert!(cxt.budget == 0);
+    }
+}
+
 /// `execute_limited` of the executor: an I/O-failure stop is a normal, finished return; budget
 /// exhaustion is `Ok(false)`; never `Err`.
 #[kani::proof]
